@@ -30,7 +30,7 @@ namespace Driver.File
 open Aurora.Bmt (Bytes)
 open Aurora.Tree Aurora.HashTrie Aurora.Joiner
 
-def C : Nat := 262144
+def C : Nat := Aurora.Tree.chunkBytes
 
 /-- zero-subtree hashes: `zh[0]` = 32 zero bytes, `zh[i+1] = H(zh[i] ‖ zh[i])` -/
 def zeroHashes : Array ByteArray := Id.run do
@@ -101,8 +101,8 @@ def hex64 (w : UInt64) : String :=
 def St.params (st : St) : Nat × Nat :=
   match st.mode with
   | .small c b => (c, b)
-  | .enc => (C, 4096)
-  | _ => (C, 8192)
+  | .enc => (C, Aurora.Tree.encBranching)
+  | _ => (C, Aurora.Tree.branching)
 
 def St.cref (st : St) : Bytes → Bytes → Bytes :=
   match st.mode with
@@ -148,7 +148,7 @@ def readOut (n : Nat) (err : Option IoErr) (mem : Bytes) : String :=
 def lookupFn (st : St) : Bytes → Option Bytes := fun a => st.store.get? a
 
 def getFn (st : St) : Bytes → Except Aurora.Joiner.Err Bytes :=
-  storeGet (lookupFn st) (fun _ d => d) 32
+  storeGet (lookupFn st) (fun _ d => d) Aurora.Tree.hashBytes
 
 def depthFuel : Nat := 12
 
